@@ -43,8 +43,6 @@ $M C06,C07,C08,C19 qubovert/sat/_satisfiability.py '    x, v = OR(*variables[:-1
     return x + v * (1 - x)' '    return NOT(AND(*[NOT(v) for v in variables]))'
 # B16 update() with a constrained model adds the other counter instead of taking the maximum (names stay unique, counter stays an upper bound)
 $M C14,C02,C03 qubovert/_pcbo.py '            self._ancilla = max(self._ancilla, args[0]._ancilla)' '            self._ancilla += args[0]._ancilla'
-# B17 explicit schedules are handed to the kernel as a tuple
-$M C11,C12,C17 qubovert/sim/_anneal.py '        return list(schedule)' '        return tuple(schedule)'
 # B18 the brute-force solver visits the variables in reverse order (other order of all_solutions)
 $M C09,C08,C10 qubovert/utils/_solve_bruteforce.py '        x = {mapping[i]: v for i, v in enumerate(test_sol)}' '        x = {mapping[i]: v for i, v in reversed(list(enumerate(test_sol)))}'
 # B19 default reduction penalty computed in floating point (1.0 + |v|)
